@@ -96,6 +96,10 @@ pub enum Mut {
     /// add `count` fixed-value integer records to the first prototype
     XmlAddRecords { count: u16 },
     XmlDeepNest { depth: u32 },
+    /// deep nesting whose end tags a careless scanner sees inside comments: groups of `width` start tags, then a
+    /// comment that opens with one of the shortest spellings (`<!-->`, `<!--->`) and contains `width` end tags; the
+    /// real end tags follow at the very end (real depth = groups x width)
+    XmlDeepNestHidden { groups: u32, width: u8, opener: u8 },
     /// a DOCTYPE with an internal entity of `size` bytes (optionally nested `levels` deep) that is referenced `refs`
     /// times in an attribute value and in element text
     XmlEntities { size: u16, refs: u16, levels: u8 },
@@ -229,6 +233,8 @@ pub fn gen_script(s: &mut Src) -> Script {
             8 => {
                 if s.chance(1, 3) {
                     Mut::XmlEntities { size: *s.pick(&[1u16, 100, 30000]), refs: *s.pick(&[1u16, 10, 255, 4096]), levels: *s.pick(&[0u8, 1, 5, 9]) }
+                } else if s.chance(1, 4) {
+                    Mut::XmlDeepNestHidden { groups: *s.pick(&[2u32, 40, 3000]), width: *s.pick(&[1u8, 50, 100]), opener: s.below(4) as u8 }
                 } else if s.flag() {
                     Mut::XmlDeepNest { depth: *s.pick(&[10u32, 200, 5000, 5000, 100_000]) }
                 } else {
@@ -572,6 +578,31 @@ fn apply_mut(img: &mut Img, m: &Mut) {
                     }
                 }
                 img.xml.insert_str(root, &dtd);
+                img.xml_dirty = true;
+            }
+        }
+        Mut::XmlDeepNestHidden { groups, width, opener } => {
+            if let Some(p) = img.xml.find("<data3D") {
+                let w = (*width as usize).clamp(1, 100);
+                let open = ["<!-->", "<!--->", "<!-- -->", "<!--x-->"][*opener as usize % 4];
+                let mut add = String::new();
+                for _ in 0..*groups {
+                    for _ in 0..w {
+                        add.push_str("<n type=\"Structure\">");
+                    }
+                    add.push_str(open);
+                    if !open.ends_with("-->") || open.len() < 7 {
+                        // the comment is still open: what looks like end tags is comment text
+                        for _ in 0..w {
+                            add.push_str("</n>");
+                        }
+                        add.push_str("-->");
+                    }
+                }
+                for _ in 0..(*groups as usize * w) {
+                    add.push_str("</n>");
+                }
+                img.xml.insert_str(p, &add);
                 img.xml_dirty = true;
             }
         }
